@@ -10,7 +10,8 @@ for id in $IDS; do
   for f in mutants/$id/benign/*.patch; do [ -f "$f" ] && echo "$f silent $id" >>$list; done
 done
 out=$(mktemp)
+if [ -z "${AMCHECK:-}" ]; then snap=$(mktemp); cp bin/amcheck "$snap"; chmod +x "$snap"; export AMCHECK="$snap"; fi
 xargs -a $list -P $J -L 1 tools/mutant.sh >$out 2>&1
 grep -c '^ok' $out | sed 's/^/ok: /'
 grep -E '^(BAD|SKIP|NOTE)' -A3 $out
-rm -f $list $out
+rm -f $list $out ${snap:-}
